@@ -200,6 +200,25 @@ def main():
             keys.append((id(c), k))
     mres = vf.coq_eval_strings(["model.Check"], "fun c => let '(st, steps) := c in run_walk st steps", terms, shard=600)
     model = dict(zip(keys, mres))
+    # cases with a union parameter, once more through the model of GREEDY union resolution (model/UnionWalk.v) with all their alternatives
+    uterms, ukeys = [], []
+    for c in cases:
+        if not any("union" in p for p in c["params"]):
+            continue
+        by = {p["name"]: p for p in c["params"]}
+        seen = set()
+        for v in c["variants"]:
+            k = (tuple(v["order"]), v["style"] == "dataclass")
+            if k in seen:
+                continue
+            seen.add(k)
+            groups = [[use_coq(d, cat_dtypes[by[nm]["cat"]], c["shapes"][nm], c["dtypes"].get(nm, "float32")) for d in by[nm].get("union", [by[nm]["dim"]])] for nm in v["order"]]
+            if c["ret"] and not k[1]:
+                groups.append([use_coq(c["ret"]["dim"], cat_dtypes[c["ret"]["cat"]], c["ret_shape"], c["ret_dtype"])])
+            syms = [t.split("=")[-1].lstrip("#*_?") for nm in v["order"] for d in by[nm].get("union", [by[nm]["dim"]]) for t in d.split()] + ([t.split("=")[-1].lstrip("#*_?") for t in c["ret"]["dim"].split()] if c["ret"] else [])
+            uterms.append("(%s, %s)" % (G.symtab_coq(syms), vf.coqlist(groups, lambda g: vf.coqlist(g))))
+            ukeys.append((id(c), k))
+    umodel = dict(zip(ukeys, vf.coq_eval_strings(["model.UnionWalk"], "fun c => let '(st, steps) := c in run_walk_union st steps", uterms, shard=600))) if uterms else {}
 
     nontriv, samples, ncalls = set(), [], 0
     for c in cases:
@@ -213,6 +232,10 @@ def main():
             groups.setdefault(isdc, []).append((v, o))
             m = model[(id(c), (tuple(v["order"]), isdc))]
             mo = {"acc": "ok", "rej": "reject"}.get(m, m)
+            um = umodel.get((id(c), (tuple(v["order"]), isdc)))
+            if um is not None and {"acc": "ok", "rej": "reject"}.get(um, um) != o:
+                R.violation("correspondence", "decorated call %s with a union parameter: implementation `%s`, model of greedy union resolution (UnionWalk.v) `%s`; params %s shapes %s" % (
+                    v, o, um, [(p["name"], p.get("union", p["dim"])) for p in c["params"]], c["shapes"]), {"case": dict(c, variants=[v]), "impl": o, "model": um}, key={"kind": "union-walk-vs-impl"}, no_input=True)
             if o != mo:
                 small = dict(c, variants=[v])
                 kind = "property" if (proved and o in ("ok", "reject") and mo in ("ok", "reject")) else "correspondence"
